@@ -8,6 +8,9 @@ use std::io::{self, BufRead, Write};
 use std::panic::{catch_unwind, AssertUnwindSafe};
 
 mod arrays;
+mod bytesio;
+mod convert;
+mod create;
 mod spectrum;
 mod util;
 
@@ -19,6 +22,9 @@ fn run_case(line: &str, out: &mut String) {
     match toks[0] {
         "get" | "view" | "axisiter" | "indices" | "sum" | "getaxis" => arrays::run(&toks, out),
         "fold" | "marg" | "project" | "pmf" | "binom" => spectrum::run(&toks, out),
+        "npyw" | "npyr" | "textw" | "read" | "fmt" | "parse" => bytesio::run(&toks, out),
+        "classify" | "sites" => create::run(&toks, out),
+        "vcf2bcf" => convert::run(&toks, out),
         other => out.push_str(&format!("UNKNOWN-OP {other}")),
     }
 }
